@@ -316,6 +316,20 @@ bool qvector_addat(qvector_t *vector, int index, const void *data) {
         return false;
     }
 
+    //the new element may be one of this vector's own elements (a pointer
+    //returned by getat(..., false)). remember which one, because the buffer
+    //may be reallocated and the elements are shifted below.
+    bool own = false;
+    size_t ownidx = 0;
+    if (vector->num > 0
+        && (const unsigned char *)data >= (unsigned char *)vector->data
+        && (const unsigned char *)data < (unsigned char *)vector->data
+                                          + vector->objsize * vector->num) {
+        own = true;
+        ownidx = ((const unsigned char *)data - (unsigned char *)vector->data)
+                 / vector->objsize;
+    }
+
     //check whether the vector is full
     if (vector->num >= vector->max) {
         size_t newmax = vector->max + 1;
@@ -342,6 +356,12 @@ bool qvector_addat(qvector_t *vector, int index, const void *data) {
         void *src = (unsigned char *)vector->data + vector->objsize * (i - 1);
 
         memcpy(dst, src, vector->objsize);
+    }
+
+    if (own == true) {
+        //that element is where the shift left it.
+        if (ownidx >= (size_t)index) ownidx++;
+        data = (unsigned char *)vector->data + ownidx * vector->objsize;
     }
 
     void *add = (unsigned char *)vector->data + index * vector->objsize;
